@@ -356,6 +356,28 @@ def run_case(case):
             lo = xc.min(0) - 0.3 * (xc.max(0) - xc.min(0)) - 0.5
             hi = xc.max(0) + 0.3 * (xc.max(0) - xc.min(0)) + 0.5
             br = sorted(set(breaks_2d))
+            br0, br1 = list(br), list(br)
+            # aim only: where do draws of the base land in data space?  (a cubic spline on [-40, 40] can squeeze the whole bulk of
+            # the base into a strip 0.07 wide which 8 panels over the corner box never touch)
+            try:
+                with torch.no_grad():
+                    ga = torch.Generator().manual_seed(case["seed"] + 3)
+                    if bk == "mademog":
+                        torch.manual_seed(case["seed"] + 3)
+                        zs = base.sample(1500, c1).reshape(-1, 2) if c1 is not None else base.sample(1500).reshape(-1, 2)
+                    else:
+                        zs = torch.tensor(mu[r]) + torch.exp(torch.tensor(ls[r])) * torch.randn(1500, 2, generator=ga)
+                    xs_ = b.module.inverse(zs.reshape([-1] + ishape) if img2 else zs, c1.expand(len(zs), -1) if c1 is not None else None)[0].reshape(-1, 2).numpy()
+                if np.all(np.isfinite(xs_)) and np.abs(xs_).max() < 1e3:
+                    qs = np.percentile(xs_, [0, 0.5, 2, 10, 30, 50, 70, 90, 98, 99.5, 100], axis=0)
+                    sd_ = xs_.std(0) + 1e-12
+                    for d_, brd in ((0, br0), (1, br1)):
+                        brd += list(qs[:, d_]) + [qs[0, d_] - k_ * sd_[d_] for k_ in (1, 3, 6)] + [qs[-1, d_] + k_ * sd_[d_] for k_ in (1, 3, 6)]
+                        lo[d_] = min(lo[d_], qs[0, d_] - 8 * sd_[d_])
+                        hi[d_] = max(hi[d_], qs[-1, d_] + 8 * sd_[d_])
+                    br0, br1 = sorted(set(br0)), sorted(set(br1))
+            except Exception:
+                pass
 
             inner_err = [0.0]
 
@@ -363,14 +385,14 @@ def run_case(case):
                 out = np.zeros(len(x0s))
                 for k, x0 in enumerate(x0s):
                     gq = lambda y: np.exp(logp(np.stack([np.full_like(y, x0), y], 1)))  # noqa
-                    v, e, _ = adaptive_quad_1d(gq, lo[1], hi[1], br, tol=1e-7, max_evals=4000, init_panels=8)
+                    v, e, _ = adaptive_quad_1d(gq, lo[1], hi[1], br1, tol=1e-7, max_evals=4000, init_panels=8)
                     out[k] = v
                     inner_err[0] = max(inner_err[0], e)
                 return out
             try:
                 # (single-layout adaptive rule with few initial panels in both directions: the two-layout quad_1d starts from
                 #  161 panels = 3500 evaluations per integral, i.e. 1e7 density evaluations per case)
-                v, e, _ = adaptive_quad_1d(outer, lo[0], hi[0], br, tol=1e-6, max_evals=1500, init_panels=8)
+                v, e, _ = adaptive_quad_1d(outer, lo[0], hi[0], br0, tol=1e-6, max_evals=1500, init_panels=8)
             except Exception as ex:
                 if isinstance(ex, _Budget):
                     res.inconclusive += 1       # evaluation budget (case count / generated size, not wall clock) exhausted
@@ -387,6 +409,24 @@ def run_case(case):
                 return res
             res.nontrivial = not _affine_only(case["spec"])
             tol = 5e-5 + 10 * e
+            if v < 1 - tol:
+                # before a deficit is believed: the same integral from three times as many initial panels in both directions (mass
+                # that sits between coarse panels shows up; a density that really is too small keeps its deficit)
+                try:
+                    evals[0] = -4000000          # (an extra evaluation budget for this one rerun)
+                    v_f, e_f, _ = adaptive_quad_1d(
+                        lambda x0s: np.array([adaptive_quad_1d(lambda y, x0=x0: np.exp(logp(np.stack([np.full_like(y, x0), y], 1))), lo[1], hi[1], br1,
+                                                               tol=1e-7, max_evals=6000, init_panels=24)[0] for x0 in x0s]),
+                        lo[0], hi[0], br0, tol=1e-6, max_evals=3000, init_panels=24)
+                    res.labels.append("2d_fine_rerun")
+                    if np.isfinite(v_f) and abs(v_f - v) > tol:
+                        res.inconclusive += 1      # the two resolutions disagree: not resolved
+                        res.labels.append("2d_unresolved")
+                        return res
+                except _Budget:
+                    res.inconclusive += 1
+                    res.labels.append("2d_budget")
+                    return res
             res.see_ratio(abs(v - 1), tol)
             if abs(v - 1) > tol:
                 res.fail("not_normalised", site, "2-D integral of exp(log_prob) = %.7f (err est %.1g); base %s" % (v, e, bk), measured=abs(v - 1), tol=tol, base=bk, dim=2)
